@@ -3,6 +3,7 @@ import Comdex.Model.Guards
 /-! Driver for the guards model (C12, C14).
 
 Lines (tab separated):
+  grd.begin handler scn                                                    starts a case (one delivery / dispatch / sweep)
   grd.msg   handler scn owner names admin brk esm price base outcome parentEmpty branchClean victimSame
             owner/names/admin/brk/price/base/parentEmpty/branchClean/victimSame ∈ {0,1}; esm ∈ {none,in,after};
             outcome ∈ {ok,err,panic}
@@ -75,6 +76,7 @@ def handleSweep (seq sweep app : String) (brk : Bool) (esm : String) (base : Boo
 def handle (st : St) (seq : String) (f : List String) : St × List String :=
   let st' := { st with n := st.n + 1 }
   match f with
+  | "grd.begin" :: _ => (st', [])
   | ["grd.msg", handler, scn, owner, names, admin, brk, esm, price, base, outcome, pe, bc, vs] =>
     match b? owner, b? names, b? admin, b? brk, b? price, b? base, b? pe, b? bc, b? vs with
     | some owner, some names, some admin, some brk, some price, some base, some pe, some bc, some vs =>
